@@ -172,5 +172,8 @@ example : admission { cfgT with supported := [] } { requested := ["", "zzz"], cr
 theorem skel_wsHandler : Gen.Skeletons.wsHandler = Ocpp.Expected.wsHandler := by decide
 theorem skel_wsAddSupportedSubprotocol : Gen.Skeletons.wsAddSupportedSubprotocol = Ocpp.Expected.wsAddSupportedSubprotocol := by decide
 theorem skel_wsNewServer : Gen.Skeletons.wsNewServer = Ocpp.Expected.wsNewServer := by decide
+theorem skel_wsSetCheckOriginHandler : Gen.Skeletons.wsSetCheckOriginHandler = Ocpp.Expected.wsSetCheckOriginHandler := by decide
+theorem skel_wsSetBasicAuthHandler : Gen.Skeletons.wsSetBasicAuthHandler = Ocpp.Expected.wsSetBasicAuthHandler := by decide
+theorem skel_wsSetCheckClientHandler : Gen.Skeletons.wsSetCheckClientHandler = Ocpp.Expected.wsSetCheckClientHandler := by decide
 
 end C14
